@@ -209,8 +209,8 @@ class PyDBMLParser:
     def locate_table(self, schema: str, name: str) -> "Table":
         if not self.database:
             raise RuntimeError("Database is not ready")
-        # first by alias
-        result = self.database.table_dict.get(name)
+        # first by alias (an alias is not qualified by a schema)
+        result = self.database.table_dict.get(name) if schema == 'public' else None
         if result is None:
             full_name = f"{schema}.{name}"
             result = self.database.table_dict.get(full_name)
